@@ -1,4 +1,4 @@
-\* Universe E (thorough): one + or * application, histories of <= 3 operations (assign, undo) ending with an Equation for every comparison, hard and soft, epsilon 0, 1/4, 1e-7.
+\* Universe E (thorough): one + or * application, an optional assign or undo, then an Equation for every comparison, hard and soft, epsilon 0, 1/4, 1e-7.
 SPECIFICATION Spec
 CONSTANTS
   Consts <- ConstsA
@@ -10,7 +10,7 @@ CONSTANTS
   WithRaw = FALSE
   SameNames = {0}
   MaxBuild = 1
-  MaxOps = 3
+  MaxOps = 2
   OpKinds = {"assign", "undo", "eq"}
   RehomeTargets = {}
   EqCmps = {"LE", "GE", "EQ"}
